@@ -94,13 +94,16 @@ Section SD.
   Variable G : Type.
   Variable C : Type.
   Variable rt4 : C -> C.
+  Variable codec : props -> props.
+  Hypothesis codec_safe : forall p, sd_safe p = true -> codec p = p.
 
   Notation conformer := (conformer C).
   Notation mol := (mol G C).
   Notation sdrec := (sdrec G C).
   Notation write_loop := (write_loop G C).
   Notation mol_to_sdf := (mol_to_sdf G C).
-  Notation mol_from_sdf := (mol_from_sdf G C rt4).
+  Notation mol_from_sdf := (mol_from_sdf G C rt4 codec).
+  Notation decode_rec := (decode_rec G C codec).
 
   (* ---- the write loop ------------------------------------------------------------------------------------------- *)
   (* how many conformers a limit lets through when j have been written already *)
@@ -183,6 +186,49 @@ Section SD.
   Lemma Forall2_length {A B} (R : A -> B -> Prop) a b : Forall2 R a b -> length a = length b.
   Proof. induction 1; simpl; congruence. Qed.
 
+  (* ---- property maps without line feeds pass the SD codec unchanged --------------------------------------------- *)
+  Definition rec_safe (r : sdrec) : Prop := sd_safe (r_props G C r) = true.
+
+  Lemma sd_safe_pclear k p : sd_safe p = true -> sd_safe (pclear k p) = true.
+  Proof.
+    unfold sd_safe, pclear. intro H. rewrite forallb_forall in *. intros e He. apply filter_In in He. apply H. tauto.
+  Qed.
+
+  Lemma sd_safe_pset_energy k t p : sd_safe p = true -> sd_safe (pset k (PE t) p) = true.
+  Proof. intro H. unfold pset. simpl. apply sd_safe_pclear. assumption. Qed.
+
+  Lemma write_loop_safe g es lim : forall cs p j, sd_safe p = true ->
+    Forall rec_safe (snd (write_loop g es lim p j cs)).
+  Proof.
+    induction cs as [|c cs IH]; intros p j Hp; simpl; [constructor|].
+    destruct (limit_active lim && (j >=? limit_val lim)); simpl; [constructor|].
+    set (p' := match es with Some l => match nth_error l (Z.to_nat j) with Some e => pset K_E (PE (canon e)) p | None => p end | None => p end).
+    assert (Hp' : sd_safe p' = true).
+    { unfold p'. destruct es as [l|]; [|assumption]. destruct (nth_error l (Z.to_nat j)); [|assumption]. apply sd_safe_pset_energy. assumption. }
+    specialize (IH p' (j + 1) Hp'). destruct (write_loop g es lim p' (j + 1) cs) as [pf recs]. simpl in *.
+    constructor; [exact Hp'|exact IH].
+  Qed.
+
+  Lemma decode_safe recs : Forall rec_safe recs -> map decode_rec recs = recs.
+  Proof.
+    induction 1 as [|r recs Hr _ IH]; simpl; [reflexivity|]. rewrite IH. f_equal.
+    unfold Files.decode_rec. rewrite (codec_safe _ Hr). destruct r; reflexivity.
+  Qed.
+
+  Lemma pget_In k v : forall p, pget k p = Some v -> In (k, v) p.
+  Proof.
+    induction p as [|[k' v'] p IH]; cbn [pget]; [discriminate|].
+    destruct (String.eqb k k') eqn:E; intro H.
+    - inversion H; subst. apply String.eqb_eq in E. subst. left. reflexivity.
+    - right. auto.
+  Qed.
+
+  Lemma sd_safe_title p : sd_safe p = true -> title_ok p = true.
+  Proof.
+    unfold title_ok. intro H. destruct (pget K_NAME p) as [[s| |]|] eqn:E; try reflexivity.
+    apply pget_In in E. unfold sd_safe in H. rewrite forallb_forall in H. apply (H _ E).
+  Qed.
+
   (* ---- the two functions, inverted ------------------------------------------------------------------------------- *)
   Lemma mol_to_sdf_inv m wl m' recs : mol_to_sdf m wl = Ok (m', recs) ->
     exists es pf,
@@ -205,7 +251,13 @@ Section SD.
   Lemma read_take_map {A B} (f : A -> B) rl l : read_take rl (map f l) = map f (read_take rl l).
   Proof. unfold read_take. destruct rl as [n|]; [|reflexivity]. destruct (n <? 0); [reflexivity|apply firstn_map]. Qed.
 
-  Lemma mol_from_sdf_inv recs rl fb r : mol_from_sdf recs rl fb = Ok r ->
+  Lemma read_take_Forall {A} (P : A -> Prop) rl l : Forall P l -> Forall P (read_take rl l).
+  Proof.
+    intro H. unfold read_take. destruct rl as [n|]; [|assumption]. destruct (n <? 0); [assumption|].
+    rewrite Forall_forall in *. intros x Hx. apply H. eapply In_firstn. exact Hx.
+  Qed.
+
+  Lemma mol_from_sdf_inv recs rl fb r : Forall rec_safe recs -> mol_from_sdf recs rl fb = Ok r ->
     exists r0 rest es,
       read_take rl recs = r0 :: rest /\ read_energies G C (r0 :: rest) = Ok es /\
       m_graph G C r = r_graph G C r0 /\ m_confs G C r = renumber G C rt4 0 (r0 :: rest) /\
@@ -214,8 +266,10 @@ Section SD.
          let p := match pget K_NAME p with Some _ => p | None => pset K_NAME (PStr fb) p end in
          match es with [] => p | _ => pclear K_E (add_conformer_energies p es) end).
   Proof.
-    unfold Files.mol_from_sdf. fold (read_take rl recs).
+    intro Hs. unfold Files.mol_from_sdf. fold (read_take rl recs).
+    rewrite (decode_safe _ (read_take_Forall _ rl recs Hs)).
     destruct (read_take rl recs) as [|r0 rest] eqn:T; [discriminate|].
+    destruct (forallb (fun r1 => title_ok (r_props G C r1)) (r0 :: rest)); simpl negb; cbv iota; [|discriminate].
     destruct (read_energies G C (r0 :: rest)) as [es|e] eqn:RE; simpl; [|discriminate].
     intro H. inversion H; subst; clear H. exists r0, rest, es. repeat split; try reflexivity; exact RE.
   Qed.
@@ -235,7 +289,7 @@ Section SD.
 
   (* ---- the statements ------------------------------------------------------------------------------------------- *)
   (* number and order of conformers: the first `write limit` of the molecule, then the first `read limit` of those *)
-  Lemma sdf_count_order m wl rl fb m' recs r :
+  Lemma sdf_count_order m wl rl fb m' recs r : sd_safe (m_props G C m) = true ->
     mol_to_sdf m wl = Ok (m', recs) -> mol_from_sdf recs rl fb = Ok r ->
     map (c_xyz C) (m_confs G C r) =
       map rt4 (map (c_xyz C) (read_take rl (firstn (room wl 0 (length (m_confs G C m))) (m_confs G C m)))) /\
@@ -243,9 +297,12 @@ Section SD.
     m_graph G C r = m_graph G C m /\
     m_confs G C m' = m_confs G C m /\ m_graph G C m' = m_graph G C m.
   Proof.
-    intros HW HR.
+    intros Hsd HW HR.
     destruct (mol_to_sdf_inv _ _ _ _ HW) as (es & pf & _ & W & -> & _).
-    destruct (mol_from_sdf_inv _ _ _ _ HR) as (r0 & rest & es' & T & _ & Gr & Cr & _).
+    assert (Hsafe : Forall rec_safe recs).
+    { pose proof (write_loop_safe (m_graph G C m) es wl (m_confs G C m) (pclear K_CE (m_props G C m)) 0 (sd_safe_pclear _ _ Hsd)) as Xs.
+      rewrite W in Xs. exact Xs. }
+    destruct (mol_from_sdf_inv _ _ _ _ Hsafe HR) as (r0 & rest & es' & T & _ & Gr & Cr & _).
     pose proof (write_loop_recs (m_graph G C m) es wl (m_confs G C m) (pclear K_CE (m_props G C m)) 0 ltac:(lia)) as [X Fg].
     rewrite W in X, Fg. simpl in X, Fg.
     split; [|split; [|split; [|split; reflexivity]]].
@@ -262,14 +319,14 @@ Section SD.
   Proof. unfold read_take. destruct rl as [n|]; [|reflexivity]. destruct (n <? 0); [reflexivity|apply firstn_length]. Qed.
 
   (* the count as a minimum, limits None / -1 meaning "all" (a read limit < 0 never matches the counter) *)
-  Lemma sdf_count m wl rl fb m' recs r :
+  Lemma sdf_count m wl rl fb m' recs r : sd_safe (m_props G C m) = true ->
     mol_to_sdf m wl = Ok (m', recs) -> mol_from_sdf recs rl fb = Ok r ->
     length (m_confs G C r) =
       let n := length (m_confs G C m) in
       let w := if limit_active wl then Nat.min n (Z.to_nat (limit_val wl)) else n in
       match rl with None => w | Some k => if k <? 0 then w else Nat.min (Z.to_nat k) w end.
   Proof.
-    intros HW HR. destruct (sdf_count_order _ _ _ _ _ _ _ HW HR) as (X & _).
+    intros Hsd HW HR. destruct (sdf_count_order _ _ _ _ _ _ _ Hsd HW HR) as (X & _).
     apply (f_equal (@length C)) in X. rewrite !map_length, read_take_length, firstn_length in X.
     rewrite X. unfold room. rewrite Z.sub_0_r.
     destruct (limit_active wl); simpl; destruct rl as [k|]; try destruct (k <? 0); lia.
@@ -277,16 +334,19 @@ Section SD.
 
   (* energies: with (at least) one energy per conformer the molecule read back carries the formatted energies of the
      conformers it received, in order, and no stray Energy property *)
-  Lemma sdf_energies m wl rl fb m' recs r l :
+  Lemma sdf_energies m wl rl fb m' recs r l : sd_safe (m_props G C m) = true ->
     get_conformer_energies (m_props G C m) = Ok (Some l) -> (length (m_confs G C m) <= length l)%nat ->
     mol_to_sdf m wl = Ok (m', recs) -> mol_from_sdf recs rl fb = Ok r ->
     pget K_CE (m_props G C r) = Some (PEn (map canon (firstn (length (m_confs G C r)) l))) /\
     pget K_E (m_props G C r) = None.
   Proof.
-    intros HE Hlen HW HR.
+    intros Hsd HE Hlen HW HR.
     destruct (mol_to_sdf_inv _ _ _ _ HW) as (es & pf & HE' & W & _ & _).
     rewrite HE in HE'. inversion HE'; subst es; clear HE'.
-    destruct (mol_from_sdf_inv _ _ _ _ HR) as (r0 & rest & es' & T & RE & _ & Cr & Pr).
+    assert (Hsafe : Forall rec_safe recs).
+    { pose proof (write_loop_safe (m_graph G C m) (Some l) wl (m_confs G C m) (pclear K_CE (m_props G C m)) 0 (sd_safe_pclear _ _ Hsd)) as Xs.
+      rewrite W in Xs. exact Xs. }
+    destruct (mol_from_sdf_inv _ _ _ _ Hsafe HR) as (r0 & rest & es' & T & RE & _ & Cr & Pr).
     pose proof (write_loop_energies (m_graph G C m) l wl (m_confs G C m) (pclear K_CE (m_props G C m)) 0 ltac:(lia) ltac:(simpl; lia)) as F.
     rewrite W in F. simpl in F.
     set (k := room wl 0 (length (m_confs G C m))) in *.
@@ -394,6 +454,14 @@ Definition smiles_generator_lines (ls : list text) : list (text * text) :=
 Definition good_entry (e : text * text) : Prop := good_token (fst e) /\ good_token (snd e).
 Definition swap (e : text * text) : text * text := (snd e, fst e).
 
+Definition tok_ok (c : Z) : bool := negb (is_ws c) && negb (is_uws_lead c).
+
+Lemma tok_ok_ws t : forallb tok_ok t = true -> forallb (fun c => negb (is_ws c)) t = true.
+Proof.
+  intro H. rewrite forallb_forall in *. intros c Hc. specialize (H c Hc). unfold tok_ok in H.
+  apply andb_true_iff in H. tauto.
+Qed.
+
 Lemma ws_free_nl_free t : forallb (fun c => negb (is_ws c)) t = true -> forallb (fun c => negb (is_nl c)) t = true.
 Proof.
   intro H. rewrite forallb_forall in *. intros c Hc. specialize (H c Hc).
@@ -401,18 +469,40 @@ Proof.
   apply nl_is_ws in E. congruence.
 Qed.
 
+(* a string without the four lead bytes holds no non-ASCII white space: normalisation leaves it alone *)
+Lemma uws_len_nolead a t : is_uws_lead a = false -> uws_len (a :: t) = 0%nat.
+Proof.
+  unfold is_uws_lead. intro H. apply orb_false_iff in H. destruct H as [H H4]. apply orb_false_iff in H. destruct H as [H H3].
+  apply orb_false_iff in H. destruct H as [H1 H2].
+  unfold uws_len. destruct t as [|b r]; [reflexivity|]. rewrite H1, H2, H3, H4. simpl. destruct r; reflexivity.
+Qed.
+
+Lemma norm_ws_nolead t : forallb (fun c => negb (is_uws_lead c)) t = true -> norm_ws t = t.
+Proof.
+  unfold norm_ws. induction t as [|a t IH]; intro H; [reflexivity|].
+  simpl in H. apply andb_true_iff in H. destruct H as [H1 H2]. apply negb_true_iff in H1.
+  cbn [norm_ws_aux]. rewrite (uws_len_nolead a t H1). rewrite (IH H2). reflexivity.
+Qed.
+
+Lemma tok_ok_nolead t : forallb tok_ok t = true -> forallb (fun c => negb (is_uws_lead c)) t = true.
+Proof.
+  intro H. rewrite forallb_forall in *. intros c Hc. specialize (H c Hc). unfold tok_ok in H.
+  apply andb_true_iff in H. tauto.
+Qed.
+
 Lemma split_ws_entry s n : good_token s -> good_token n -> split_ws (s ++ 32 :: n) = [s; n].
 Proof.
-  intros [Hs1 Hs2] [Hn1 Hn2]. unfold split_ws.
-  rewrite (split_on_app is_ws s 32 n Hs2 eq_refl), (split_on_clean is_ws n Hn2). simpl.
+  intros [Hs1 Hs2] [Hn1 Hn2]. fold tok_ok in Hs2, Hn2. unfold split_ws.
+  rewrite norm_ws_nolead by (rewrite forallb_app; simpl; rewrite (tok_ok_nolead _ Hs2), (tok_ok_nolead _ Hn2); reflexivity).
+  rewrite (split_on_app is_ws s 32 n (tok_ok_ws _ Hs2) eq_refl), (split_on_clean is_ws n (tok_ok_ws _ Hn2)). simpl.
   destruct s; [contradiction|]. destruct n; [contradiction|]. reflexivity.
 Qed.
 
 Lemma lines_entry s n rest : good_token s -> good_token n ->
   lines ((s ++ 32 :: n) ++ 10 :: rest) = (s ++ 32 :: n) :: lines rest.
 Proof.
-  intros [_ Hs] [_ Hn]. unfold lines. apply split_on_app; [|reflexivity].
-  rewrite forallb_app. rewrite (ws_free_nl_free _ Hs). simpl. apply (ws_free_nl_free _ Hn).
+  intros [_ Hs] [_ Hn]. fold tok_ok in Hs, Hn. unfold lines. apply split_on_app; [|reflexivity].
+  rewrite forallb_app. rewrite (ws_free_nl_free _ (tok_ok_ws _ Hs)). simpl. apply (ws_free_nl_free _ (tok_ok_ws _ Hn)).
 Qed.
 
 Lemma iter_cons e t : iter_to_smiles (e :: t) = (snd e ++ 32 :: fst e) ++ 10 :: iter_to_smiles t.
